@@ -17,6 +17,7 @@ mod c06;
 mod c07;
 mod c17;
 mod c11;
+mod c08;
 mod c15;
 mod c18;
 mod session;
@@ -43,6 +44,7 @@ fn dispatch(prop: &str, case: &str) -> String {
         "C07" => c07::run(case),
         "C17" => c17::run(case),
         "C11" => c11::run(case),
+        "C08" => c08::run(case),
         "C15" => c15::run(case),
         "C18" => c18::run(case),
         _ => "error:unknown-property".into(),
